@@ -3,7 +3,7 @@ import numpy as np
 from lib import common as C, het as H, models as M
 
 GEN = ['HetFacts', 'Solvers']
-IMPORTS = ['C08/kernel_weights', 'C08/lottery_1d_laws', 'C08/lottery_2d_laws', 'C08/markov_laws', 'C08/combined_shock_product_rule', 'C17/robust_bracket', 'C17/coord_reproduces_query', 'C17/monotone_equals_robust']
+IMPORTS = ['C08/kernel_weights', 'C08/lottery_1d_laws', 'C08/lottery_2d_laws', 'C08/markov_laws', 'C08/multidim_index_algebra', 'C08/combined_shock_product_rule', 'C17/robust_bracket', 'C17/coord_reproduces_query', 'C17/monotone_equals_robust']
 TRUSTED = ['scipy brentq / root internals', 'root finders (C20), transitions (C08), iterate-until contract (C17)']
 ASSUMPTIONS = ['convergence of the backward/forward iterations and of the outer solvers for a given calibration is not proved; the contracts are: return only after '
                'a passed test, raise otherwise', 'fixed-point, invariance, aggregation and target residuals are checked on the implementation over a calibration box']
